@@ -182,6 +182,80 @@ def param_space(ctx, rng, n: int) -> Iterator[Tuple[str, Callable]]:
             yield one(em({"p": 1}), f"ExternalModule[domain={dom!r}] in package domain {pdom!r}", domain=pdom)
 
 
+EXEC_TEMPLATE = """
+@h.module
+class ExLeaf{u}:
+    a = h.Input(width={w})
+    b = h.Output()
+    r = h.R(r=1)(p=a[0], n=b)
+
+@h.module
+class ExMid{u}:
+    a = h.Input(width={w})
+    b = h.Output()
+    l = ExLeaf{u}(a=a, b=b)
+    x = Ext()(p=b)
+
+@h.module
+class ExTop{u}:
+    s = h.Signal(width={w})
+    t = h.Signal()
+    m = ExMid{u}(a=s, b=t)
+    l = ExLeaf{u}(a=h.Concat(*[t] * {w}), b=h.NoConn())
+"""
+
+
+def exec_defined(ctx, rng, n: int) -> Iterator[Tuple[str, Callable]]:
+    """Designs defined outside any Python module (exec / notebook cell / python -c): their exported names carry no path."""
+    import hdl21 as h
+
+    for k in range(n):
+        for dom in ("", "extdom"):
+            for pdom in (None, "pkgdom"):
+                def thunk(k=k, dom=dom, pdom=pdom):
+                    u = next(_uid)
+                    E = h.ExternalModule(name=f"ExExt{u}", domain=dom, port_list=[h.Inout(name="p")], paramtype=h.HasNoParams)
+                    ns = {"h": h, "Ext": E}
+                    exec(EXEC_TEMPLATE.format(u=u, w=1 + k % 3), ns)
+                    top = ns[f"ExTop{u}"]
+                    return h.to_proto(top, domain=pdom) if pdom is not None else h.to_proto(top)
+
+                yield f"exec-defined #{k} ext-domain={dom!r} package-domain={pdom!r}", thunk
+
+
+def conflicting_externals(ctx, rng, n: int) -> Iterator[Tuple[str, Callable]]:
+    """Successive packages of one process that declare DIFFERENT external modules under one (domain, name): same port names
+    in another order, with other directions, widths or another spice type."""
+    import hdl21 as h
+    from vlsirtools import SpiceType
+
+    shapes = [
+        dict(ports=[("d", "in", 1), ("g", "in", 1), ("s", "out", 1), ("b", "io", 1)], st=SpiceType.SUBCKT),
+        dict(ports=[("b", "io", 1), ("s", "out", 1), ("g", "in", 1), ("d", "in", 1)], st=SpiceType.SUBCKT),
+        dict(ports=[("d", "out", 1), ("g", "out", 1), ("s", "in", 1), ("b", "in", 1)], st=SpiceType.SUBCKT),
+        dict(ports=[("d", "in", 1), ("g", "in", 1), ("s", "out", 1), ("b", "io", 1)], st=SpiceType.MOS),
+        dict(ports=[("d", "in", 2), ("g", "in", 1), ("s", "out", 1), ("b", "io", 3)], st=SpiceType.SUBCKT),
+        dict(ports=[("d", "in", 1), ("g", "in", 1), ("s", "out", 1)], st=SpiceType.SUBCKT),
+    ]
+    mk = {"in": h.Input, "out": h.Output, "io": h.Inout}
+    for k in range(n):
+        for dom in ("", "hvconf"):
+            order = list(range(len(shapes)))
+            rng.shuffle(order)
+            for j in order:
+                sh = shapes[j]
+
+                def thunk(sh=sh, dom=dom):
+                    em = h.ExternalModule(name="ConflictX", domain=dom, port_list=[mk[d](name=n_, width=w) for n_, d, w in sh["ports"]],
+                                          paramtype=h.HasNoParams, spicetype=sh["st"])
+                    m = h.Module(name=f"Cf{next(_uid)}")
+                    conns = {n_: m.add(h.Signal(width=w), name=f"n_{n_}") for n_, d, w in sh["ports"]}
+                    m.add(em()(**conns), name="x")
+                    return h.to_proto(m)
+
+                yield f"conflicting-external shape {j} domain={dom!r} #{k}", thunk
+
+
 def collision_designs(ctx, rng, n: int) -> Iterator[Tuple[str, Callable]]:
     """Adversarially named designs (the C05 variants): names the elaborator invents given to designer objects."""
     import hdl21 as h
